@@ -193,15 +193,20 @@ class Parser:
             self._add_instruction(OpCode.COLOR)
             return True
 
+        # An operand may contain a begin/end block with commands of its own,
+        # which must not change the command this list belongs to.
+        op_code = self._op_code
         if not self._operand():
             return False
-        self._add_instruction(self._op_code)
+        self._op_code = op_code
+        self._add_instruction(op_code)
 
         while self._current_token.is_a(TokenTypes.AND):
             self.next_token()
             if not self._operand():
                 return False
-            self._add_instruction(self._op_code)
+            self._op_code = op_code
+            self._add_instruction(op_code)
         return True
 
     def _operand(self) -> bool:
